@@ -61,6 +61,8 @@ _PROP_RX = [
     r'^alloc::borrow::Cow::(into_owned|to_mut)$',
     r'^core::mem::(transmute|ManuallyDrop::new)$',
     r'^core::ptr::(read|NonNull::as_ref)$',
+    # constructors of the workspace's plain data types: the value is made of the arguments
+    r'^datacake[a-z_]*::.*::(new|from_parts|from_tuple|into_tuple|into_parts)$',
     # views of a buffer / string under any receiver type (AlignedVec::as_slice, Bytes::as_ref, ...)
     r'::(as_slice|as_mut_slice|as_bytes|as_str|to_vec|into_vec|into_boxed_slice|into_inner)$',
 ]
